@@ -73,9 +73,22 @@ def steady_state_transport_solver(
         2D or 3D field of kinematic flux at levels or footprint.
     """
 
+    # halo to deal with periodicity of FFT
+    # (resolved before the cache lookup so that lookup and store use the same key)
+    if halo is None:
+        halo = max(domain)
+
     # Check cache for footprint mode
     if cache is not None and footprint:
-        cached = cache.get(z, profiles, domain, modes, meas_pt, halo, precision)
+        cache_extra = dict(
+            levels=levels,
+            shape=np.shape(srf_flx),
+            analytic=analytic,
+            srf_bg_conc=srf_bg_conc,
+        )
+        cached = cache.get(
+            z, profiles, domain, modes, meas_pt, halo, precision, **cache_extra
+        )
         if cached is not None:
             return cached
 
@@ -103,10 +116,6 @@ def steady_state_transport_solver(
         levels = np.array([levels])
 
     nlvls = len(levels)
-
-    # halo to deal with periodicity of FFT
-    if halo is None:
-        halo = max(xmx, ymx)
 
     # pad width
     px = int(halo / dx)
@@ -305,7 +314,9 @@ def steady_state_transport_solver(
 
     # Store to cache for footprint mode
     if cache is not None and footprint:
-        cache.put(z, profiles, domain, modes, meas_pt, halo, precision, *result)
+        cache.put(
+            z, profiles, domain, modes, meas_pt, halo, precision, *result, **cache_extra
+        )
 
     return result
 
